@@ -158,6 +158,15 @@ static void set_pd(ProjDataInMemory& pd, const Sys& s, const std::vector<int>& v
   }
 }
 
+// the same with values scaled by 2^k (an exact operation)
+static void set_pd_scaled(ProjDataInMemory& pd, const Sys& s, const std::vector<int>& vals, int k) {
+  for (size_t b = 0; b < s.bins.size(); ++b) {
+    Bin bin = s.bins[b];
+    bin.set_bin_value(std::ldexp((float)vals[b], k));
+    pd.set_bin_value(bin);
+  }
+}
+
 static shared_ptr<DataProcessor<Img>> make_filter(const Cfg& c) {
   if (c.filt == 0) return shared_ptr<DataProcessor<Img>>(new ShiftFilter(0.75F));
   shared_ptr<SeparableGaussianImageFilter<float>> g(new SeparableGaussianImageFilter<float>);
@@ -432,6 +441,7 @@ static void run_exact(vh::Trace& tr, const Sys& s, const Matrix& m, const Cfg& c
   build_objects(w, s, m, c);
   w.recon->set_disable_output(true);
   w.recon->set_save_interval(1);
+  long stepcount = 0;
   // one life of the objects: set_up, then K sub-iterations each started from a fresh exact state
   auto life = [&](const char* change) -> bool {
     w.recon->set_start_subiteration_num(1);
@@ -473,8 +483,39 @@ static void run_exact(vh::Trace& tr, const Sys& s, const Matrix& m, const Cfg& c
       if (err) j.str("msg", msg.substr(0, 100));
       put_fx(j, "out", "outx", *cur, IK);
       j.num("L0", fxval(L0, LK)).num("L1", fxval(L1, LK)).boolean("verr", verr);
+      put_bits(j, "bh", "bl", *cur);
       tr.emit(j);
       if (err) return false;
+      // ---- the SAME sub-iteration at other scales (every third step): image (and additive term) times 2^ki, or data times 2^kd.
+      // Scaling by a power of two is exact in floating point; TLC demands the exponent-shifted bits of the step above.
+      if ((stepcount++) % 3 == 0 && c.iuf == 0 && c.iif == 0) {
+        static const int kis[] = { -10, 10, 17, 23 }, kds[] = { -20, -10, 5, 10 };
+        static long nki = 0, nkd = 0;   // the scales are taken in turn over the whole trace
+        for (int which = 0; which < 2; ++which) {
+          int ki = 0, kd = 0;
+          if (which == 0) { if (c.prior != 0) continue; ki = kis[(nki++) % 4]; }
+          else { if (c.additive) continue; kd = kds[(nkd++) % 4]; }
+          set_pd_scaled(*w.y, s, y, kd);
+          ProjDataInMemory* am = c.additive ? dynamic_cast<ProjDataInMemory*>(w.a.get()) : nullptr;
+          if (am) set_pd_scaled(*am, s, c.a, ki);
+          shared_ptr<Img> sc(s.t.image->get_empty_copy());
+          { size_t i = 0; for (auto it = sc->begin_all(); it != sc->end_all(); ++it, ++i) *it = std::ldexp((float)lam[i], ki); }
+          const bool serr = vh::threw([&] {
+            w.recon->set_start_subiteration_num(k);
+            w.recon->set_num_subiterations(k);
+            w.recon->reconstruct(sc);
+          }, &msg);
+          if (am) set_pd_scaled(*am, s, c.a, 0);
+          set_pd(*w.y, s, y);
+          vh::Json js("Scale");
+          js.num("k", k).num("ki", ki).num("kd", kd).boolean("err", serr);
+          put_bits(js, "bh", "bl", *sc);
+          // the new image with the data scale taken out again (an exact operation), in the fixed-point form of Step.out
+          for (auto it = sc->begin_all(); it != sc->end_all(); ++it) *it = std::ldexp(*it, -kd);
+          put_fx(js, "out", "outx", *sc, IK);
+          tr.emit(js);
+        }
+      }
     }
     return true;
   };
@@ -546,7 +587,7 @@ static bool record_free_run(vh::Trace& tr, const Sys& s, World& w, const std::st
 // FRESH objects with configuration c run from the start image (logged as Resume k = 0 with the given variant + Cont lines):
 // what the re-used objects have to reproduce bit for bit
 static void record_fresh_run(vh::Trace& tr, const Sys& s, const Matrix& m, const Cfg& c, const std::vector<int>& y, const std::string& rprefix, int K,
-                             const std::vector<float>& start, int variant) {
+                             const std::vector<float>& start, int variant, int ks = 0) {
   std::string msg;
   World w2;
   std::vector<float> yf(y.begin(), y.end()), af(c.a.begin(), c.a.end());
@@ -558,8 +599,9 @@ static void record_fresh_run(vh::Trace& tr, const Sys& s, const Matrix& m, const
   rc->set_num_subiterations(K);
   rc->set_save_interval(1);
   vh::Json jr("Resume");
-  jr.num("k", 0).num("variant", variant).boolean("eip", c.eip);
+  jr.num("k", 0).num("variant", variant).boolean("eip", c.eip).num("ks", ks);
   shared_ptr<Img> from = image_from(s, start);
+  for (auto it = from->begin_all(); it != from->end_all(); ++it) *it = std::ldexp(*it, ks);   // start image times 2^ks (exact)
   put_bits(jr, "fromh", "froml", *from);
   bool ok = false;
   bool rerr = vh::threw([&] { ok = rc->set_up(from) == Succeeded::yes; }, &msg);
@@ -708,6 +750,13 @@ static void run_free(vh::Trace& tr, const Sys& s, const Matrix& m, const Cfg& c0
       }
   }
   for (int k = 1; k <= K; ++k) remove_saved(prefix, k);
+
+  // ---- the same run of fresh objects from the start image times 2^ks (variant 5): without additive term, prior and filters
+  // the first update does not depend on the scale of the image, so every saved iterate has to be the uninterrupted run's
+  if (!c.additive && c.prior == 0 && c.iuf == 0 && c.iif == 0) {
+    static long nscaled = 0;
+    record_fresh_run(tr, s, m, c, y, scratch + "/c07_res", K, start, 5, (nscaled++ % 2) ? 23 : 17);
+  }
 
   // ---- re-use history: ONE setting of the SAME objects is changed through the public setters (number of subsets unchanged),
   // they are set up and run again from the start image: every sub-iteration has to follow the NEW settings (a new Instance
